@@ -119,6 +119,13 @@ func paramEntry(t *rapid.T, key bool) (*rc.M, *rc.M, string) {
 		{15, func() *rc.M { return &rc.M{Major: 5} }, "cwt={}"},
 		{258, func() *rc.M { return mleaf(1, 15) }, "258=-16"},
 		{259, func() *rc.M { return mtext("x") }, "259=text"},
+		{3, func() *rc.M { return mtext("a/b;c=1;d=2") }, "cty=two-parameters"},
+		{16, func() *rc.M { return mtext("text/plain;charset=utf-8;format=flowed;x=\"y;z\"") }, "typ=three-parameters"},
+		{3, func() *rc.M { return mtext("text/plain; title=\"\u00dcbersicht \u4e2d\U0001f600\"") }, "cty=non-ascii-parameter"},
+		{259, func() *rc.M { return mtext("text/plain; title=\"\u00dcbersicht\"; a=1; b=2") }, "259=non-ascii-two-parameters"},
+		{259, func() *rc.M { return mtext("\u00fc/\u00ff;\x7f=\x01") }, "259=non-ascii-and-control"},
+		{260, func() *rc.M { return mtext("https://example.org/\u00fc?\U0001f600;a;b") }, "260=non-ascii"},
+		{16, func() *rc.M { return mtext("a/b;;;") }, "typ=empty-parameters"},
 		{260, func() *rc.M { return mtext("loc") }, "260=text"},
 	}
 	if key {
